@@ -57,6 +57,7 @@ type Prop struct {
 	Harness   []string // files under /verif/harness
 	Redirects map[string]string
 	InlinePkgs []string
+	InitFiles  map[string][]string // dependency package -> files whose init functions are executed
 	Obligs    func(tier string) []Oblig
 	Setup     func(e *sym.Engine)
 	Solver    string // primary solver for this property's obligations
@@ -238,6 +239,7 @@ type replayResult struct {
 }
 
 var replayLine = regexp.MustCompile(`(?m)^VREPLAY (\d+) (.*)$`)
+var replayEnter = regexp.MustCompile(`(?m)^VREPLAY-ENTER (\d+)$`)
 
 func (sc *scratch) replay(p *Prop, cases []replayCase) ([]replayResult, string, error) {
 	if len(cases) == 0 {
@@ -246,15 +248,42 @@ func (sc *scratch) replay(p *Prop, cases []replayCase) ([]replayResult, string, 
 	cf := filepath.Join(sc.dir, "cases.json")
 	b, _ := json.Marshal(cases)
 	os.WriteFile(cf, b, 0o644)
-	out, err := sc.goTest(p, "^TestVerifReplay$", []string{"VERIF_REPLAY_FILE=" + cf}, p.ReplayRace, 10*time.Minute)
 	res := make([]replayResult, len(cases))
 	found := 0
-	for _, m := range replayLine.FindAllStringSubmatch(out, -1) {
-		i, _ := strconv.Atoi(m[1])
-		if i < len(res) {
-			json.Unmarshal([]byte(m[2]), &res[i])
-			found++
+	var out string
+	var err error
+	for from := 0; from < len(cases); {
+		var o string
+		o, err = sc.goTest(p, "^TestVerifReplay$", []string{"VERIF_REPLAY_FILE=" + cf, "VERIF_REPLAY_FROM=" + strconv.Itoa(from)}, p.ReplayRace, 10*time.Minute)
+		out += o
+		got := map[int]bool{}
+		for _, m := range replayLine.FindAllStringSubmatch(o, -1) {
+			i, _ := strconv.Atoi(m[1])
+			if i < len(res) && !got[i] {
+				json.Unmarshal([]byte(m[2]), &res[i])
+				got[i] = true
+				found++
+			}
 		}
+		// a case that was entered but never reported: the process ended inside the harness
+		dead := -1
+		for _, m := range replayEnter.FindAllStringSubmatch(o, -1) {
+			i, _ := strconv.Atoi(m[1])
+			if i < len(res) && !got[i] {
+				dead = i
+			}
+		}
+		if dead < 0 || err == nil {
+			break
+		}
+		res[dead].Panic = "the native process ended inside the harness (test binary exited without reporting a result)"
+		res[dead].Note = "process exit"
+		if strings.HasSuffix(cases[dead].Obligation, ".no-host-exit") {
+			// for these obligations the end of the host process is the violation itself
+			res[dead].Failures = []string{cases[dead].Obligation}
+		}
+		found++
+		from = dead + 1
 	}
 	if p.ReplayRace && strings.Contains(out, "WARNING: DATA RACE") {
 		for i := range res {
@@ -369,6 +398,13 @@ func runCheck(id, tier string) int {
 		fmt.Println("INCONCLUSIVE: package initialiser could not be executed:", err)
 		writeEvidence(evPath, id, tier, seed, time.Since(t0), nil, nil, 0, []string{err.Error()}, 0, p)
 		return 0
+	}
+	for dep, files := range p.InitFiles {
+		if err := base.RunInitFiles(dep, files); err != nil {
+			fmt.Println("INCONCLUSIVE: initialiser of", dep, "could not be executed:", err)
+			writeEvidence(evPath, id, tier, seed, time.Since(t0), nil, nil, 0, []string{err.Error()}, 0, p)
+			return 0
+		}
 	}
 	kf := loadKnownFindings()
 	for _, k := range kf {
